@@ -15,6 +15,8 @@
 
    The schedulers, as the code is:
      schedule            one step: call_soon[_threadsafe](interval)
+     schedule_absolute   `self.schedule_relative(duetime - self.now, ...)`: the clock is read and the relative
+                         schedule made in the same step ([AAbs t] = [ARel (t - clock)])
      schedule_relative   thread-safe: one step: call_soon_threadsafe(stage2), handle list = [h1];
                          stage2 on the loop: call_later(...) (up to `return timer`)  |  handle.append(...)
                          plain: one step: call_later(seconds, interval)
@@ -44,7 +46,9 @@ Inductive aop :=
 | ARel (d : Z)              (* scheduler.schedule_relative(d us, action) *)
 | ADispose (u : nat)        (* dispose() of the disposable returned by call u *)
 | AStop                     (* loop.stop(): `self._stopping = True` (also what run_until_complete's done-callback does) *)
-| ASleep (t : Z).           (* the calling thread waits until the clock shows t (a busy callback / "run again later") *)
+| ASleep (t : Z)            (* the calling thread waits until the clock shows t (a busy callback / "run again later") *)
+| AAbs (t : Z).             (* scheduler.schedule_absolute(t us, action): both classes compute `duetime - self.now`
+                               (now = loop.time()) and call schedule_relative with the difference *)
 
 Inductive cb :=
 | CbAction (u : nat)                (* interval: invokes the action of call u *)
@@ -233,6 +237,7 @@ Definition call_step (on_loop : bool) (s : ash) (cur : option dst) (todo : list 
       | ADispose u :: r => let '(s', c, out) := do_dispose on_loop s u in Some (s', c, r, out)
       | AStop :: r => Some (set_stop s true (asegs s), None, r, [AStopEv])
       | ASleep t :: r => if t <=? aclock s then Some (s, None, r, [ASlept]) else None
+      | AAbs t :: r => let '(s', out) := do_sched s (t - aclock s) in Some (s', None, r, out)
       end
   end.
 
